@@ -26,18 +26,28 @@ Toggles(n) == {<<>>} \cup {<<a>> : a \in 1..n} \cup {<<a, b>> : a \in 1..n, b \i
 
 Events(ts) == <<"req">> \o [i \in 1..(2 * Len(ts)) |-> IF i % 2 = 1 THEN <<"t", ts[(i + 1) \div 2]>> ELSE "req"]
 
+(* down0: the servers that are down already when the upstream is created (a start or a reload finds them so);
+   abort: before every burst one client gives up its request (its context is cancelled) -- no effect on anybody else *)
 Cases ==
-  UNION {{[n |-> n, backup |-> [i \in 1..n |-> m[i]], policy |-> p, toggles |-> ts, ticker |-> FALSE] :
+  UNION {{[n |-> n, backup |-> [i \in 1..n |-> m[i]], policy |-> p, toggles |-> ts, ticker |-> FALSE, down0 |-> <<>>, abort |-> FALSE] :
             m \in Mixes(n), p \in Policies, ts \in Toggles(n)} : n \in 1..3}
 
+DownCases ==
+  UNION {{[n |-> n, backup |-> [i \in 1..n |-> m[i]], policy |-> p, toggles |-> ts, ticker |-> FALSE, down0 |-> SetToSeq(D), abort |-> FALSE] :
+            m \in Mixes(n), p \in {"roundRobin", "first"}, ts \in {t \in Toggles(n) : Len(t) <= 2}, D \in (SUBSET (1..n)) \ {{}}} : n \in 1..2}
+
+AbortCases ==
+  UNION {{[n |-> n, backup |-> [i \in 1..n |-> m[i]], policy |-> "roundRobin", toggles |-> ts, ticker |-> FALSE, down0 |-> <<>>, abort |-> TRUE] :
+            m \in Mixes(n), ts \in {t \in Toggles(n) : Len(t) = 3}} : n \in 1..2}
+
 TickerCases ==
-  {[n |-> 2, backup |-> <<FALSE, FALSE>>, policy |-> "roundRobin", toggles |-> <<1>>, ticker |-> TRUE]}
+  {[n |-> 2, backup |-> <<FALSE, FALSE>>, policy |-> "roundRobin", toggles |-> <<1>>, ticker |-> TRUE, down0 |-> <<>>, abort |-> FALSE]}
 
 VARIABLES l, j, up
 
 EmitInit ==
   /\ l = 0 /\ j = 0 /\ up = {}
-  /\ LET Q == SetToSeq(Cases) \o SetToSeq(TickerCases) IN ndJsonSerialize(IOEnv.OUT, Q)
+  /\ LET Q == SetToSeq(Cases) \o SetToSeq(DownCases) \o SetToSeq(AbortCases) \o SetToSeq(TickerCases) IN ndJsonSerialize(IOEnv.OUT, Q)
 EmitNext == FALSE /\ UNCHANGED <<l, j, up>>
 
 (* observation: case; bursts: one per "req" event, in order: sequence of [server (0: none), status] *)
@@ -60,7 +70,8 @@ BurstOk(c, U, b) ==
         \A i \in DOMAIN b : b[i].server = CHOOSE s \in E : \A t \in E : s <= t   \* the first of the configured order
 
 (* walk: j-th toggle applied, then the j+1-th burst judged *)
-CheckInit == l = 1 /\ j = 0 /\ up = IF Len(Obs) = 0 THEN {} ELSE 1..Obs[1].case.n
+Up0(c) == (1..c.n) \ RangeS(c.down0)
+CheckInit == l = 1 /\ j = 0 /\ up = IF Len(Obs) = 0 THEN {} ELSE Up0(Obs[1].case)
 CheckNext ==
   /\ l <= Len(Obs)
   /\ IF j < Len(Obs[l].case.toggles)
@@ -68,7 +79,7 @@ CheckNext ==
           /\ up' = IF s \in up THEN up \ {s} ELSE up \cup {s}
           /\ j' = j + 1 /\ l' = l
      ELSE /\ l' = l + 1 /\ j' = 0
-          /\ up' = IF l + 1 <= Len(Obs) THEN 1..Obs[l + 1].case.n ELSE {}
+          /\ up' = IF l + 1 <= Len(Obs) THEN Up0(Obs[l + 1].case) ELSE {}
 
 CheckInv ==
   (l <= Len(Obs) /\ ~BurstOk(Obs[l].case, up, Obs[l].bursts[j + 1])) => PrintT(<<"BAD", l, j>>)
